@@ -12,7 +12,8 @@ import (
 	"verif/engine"
 )
 
-var c13Pkgs = []string{"a", "ab", "bc", "c", "a.b.c"}
+// the last three are deeper than tequila.Level (7): the package merge cuts them at that level
+var c13Pkgs = []string{"a", "ab", "bc", "c", "a.b.c", "a.b.c.d.e.f.g.h", "a.b.c.d.e.f.g.i", "a.b.c.d.e.f.g"}
 var c13Rels = []string{"none", "implements", "extends", "field", "call", "call-from-main", "call+field"}
 
 type c13Type struct {
@@ -246,6 +247,30 @@ func c13Check(m c13Model, filter string, includeSel string) engine.Result {
 		f    func(string) string
 	}{{"header", tequila.MergeHeaderFunc}, {"package", tequila.MergePackageFunc}} {
 		mg := g.MergeHeaderFile(mf.f)
+		// the two shipped merge functions, restated: header = the name without its last segment; package = the
+		// first segment, or the first tequila.Level segments of a name with more segments than that
+		for k := range g.NodeList {
+			segs := strings.Split(k, ".")
+			want := k
+			switch mf.name {
+			case "header":
+				if len(segs) > 1 {
+					want = strings.Join(segs[:len(segs)-1], ".")
+				}
+			case "package":
+				want = segs[0]
+				if len(segs) == 1 {
+					want = "main"
+				}
+				if len(segs) > tequila.Level {
+					want = strings.Join(segs[:tequila.Level], ".")
+				}
+			}
+			if mf.f(k) != want {
+				res.Violations = append(res.Violations, engine.V("merge-"+mf.name, "merge-function", "type %q is merged into %q, its %s is %q", k, mf.f(k), mf.name, want))
+				break
+			}
+		}
 		wantNodes := map[string]bool{}
 		for k := range g.NodeList {
 			wantNodes[mf.f(k)] = true
